@@ -24,21 +24,37 @@ def constructs(lengths):
     return [(k, n) for k in L.REPEATING for n in lengths] + [(k, None) for k in L.PLAIN]
 
 
+def wrap(spec, inner):
+    """[(kind, n|None), ...] outermost first around the body `inner`."""
+    body = inner
+    for kind, n in reversed(spec):
+        body = [(kind, n, body)] if kind in L.REPEATING else [(kind, body)]
+    return body
+
+
+def inherit_nest(pre, segs):
+    """A chain of len(segs) templates: the base template has the constructs `pre` around a block tag; definition i of the
+    block (most derived first) has the constructs segs[i] around {{ block.super }}, the last one around the leaf."""
+    defs = [wrap(seg, [("super",)]) for seg in segs[:-1]] + [wrap(segs[-1], [("text", "x")])]
+    return wrap(pre, [("block", defs)])
+
+
 def gen_nests(ck: Check):
-    """(label, nest): exhaustive chains to a tier-dependent depth, then sampled deeper chains, then random trees."""
+    """(label, number of templates, nest): exhaustive chains to a tier-dependent depth, then sampled deeper chains, then random
+    trees; then the same constructs spread over the templates of an inheritance chain."""
     rng = ck.rng
     full = constructs(LENGTHS)
     depth_full = 2 if ck.quick else 3
     for d in range(1, depth_full + 1):
         for spec in itertools.product(full, repeat=d):
-            yield f"chain{d}", chain(spec)
+            yield f"chain{d}", 1, chain(spec)
     kinds = L.REPEATING + L.PLAIN
     d = depth_full + 1
-    per_shape = 2
+    per_shape = 2 if not ck.quick else 1
     for shape in itertools.product(kinds, repeat=d):
         for _ in range(per_shape):
             spec = [(k, rng.choice(LENGTHS[1:] if rng.random() < 0.8 else LENGTHS) if k in L.REPEATING else None) for k in shape]
-            yield f"chain{d}s", chain(spec)
+            yield f"chain{d}s", 1, chain(spec)
 
     def tree(depth):
         out = []
@@ -51,43 +67,83 @@ def gen_nests(ck: Check):
                 out.append((k, rng.choice(LENGTHS), tree(depth + 1)) if k in L.REPEATING else (k, tree(depth + 1)))
         return out
 
-    for _ in range(100 if ck.quick else 1000):
-        yield "tree", tree(0)
+    for _ in range(70 if ck.quick else 1000):
+        yield "tree", 1, tree(0)
     # an error dropped INSIDE a loop (tolerant modes, small context_depth_limit), then more loops: the later loops must
     # be counted on their own
     X = ("text", "x")
     for n, m, k in ((2, 2, 3), (2, 3, 5), (3, 1, 5), (2, 2, 12)):
-        yield "leak", [("for", n, [("for", m, [X])]), ("for", k, [X])]
-        yield "leak", [("for", n, [("tablerow", m, [X])]), ("for", k, [X])]
-        yield "leak", [("for", n, [("include", [("for", m, [X])])]), ("for", k, [("for", 1, [X])])]
-        yield "leak", [("include", [("for", n, [("for", m, [X])]), ("for", k, [X])]), ("for", k, [X])]
+        yield "leak", 1, [("for", n, [("for", m, [X])]), ("for", k, [X])]
+        yield "leak", 1, [("for", n, [("tablerow", m, [X])]), ("for", k, [X])]
+        yield "leak", 1, [("for", n, [("include", [("for", m, [X])])]), ("for", k, [("for", 1, [X])])]
+        yield "leak", 1, [("include", [("for", n, [("for", m, [X])]), ("for", k, [X])]), ("for", k, [X])]
+    # ---- inheritance: every construct around the block tag in the base template (or none), one construct (or none) around
+    # block.super in the overriding definition and around the leaf in the parent definition: exhaustive; three templates and
+    # two constructs per definition: sampled; random trees with blocks anywhere
+    # (a block tag with a stack stands in the chain's own templates, not in a partial or macro: for / tablerow around it)
+    small = [()] + [(c,) for c in constructs((2, 3) if ck.quick else (0, 2, 3, 5))]
+    pres = [()] + [((k, n),) for k in ("for", "tablerow") for n in ((2,) if ck.quick else (2, 5))]
+    for pre in pres:
+        for s0 in small:
+            for s1 in small:
+                yield "inherit2", 2, inherit_nest(pre, [s0, s1])
+    pool = [(c,) for c in constructs(LENGTHS[1:])] + [()]
+    for _ in range(150 if ck.quick else 1500):
+        segs = [tuple(c for seg in (rng.choice(pool), rng.choice(pool) if rng.random() < 0.4 else ()) for c in seg) for _ in range(3)]
+        yield "inherit3", 3, inherit_nest(rng.choice(pres + [((k, n), (k2, 2)) for k in ("for", "tablerow") for n in (2, 3) for k2 in ("for", "tablerow")]), segs)
+    for i in range(60 if ck.quick else 600):
+        levels = 2 + i % 2
+        t = L.gen_tree(rng, maxdepth=3, lengths=(1, 2, 3), width=2, level=levels - 1, blocks=3.0)
+        yield "inherit-tree", levels, only_leaves(t)
 
 
-def shape_of(nest):
+def only_leaves(nest):
+    """Keep the loops, partials, macros and blocks of a random tree; every text becomes the leaf 'x' (one per run of adjacent
+    texts), echo / assign / capture / ifchanged go (this check counts leaf executions)."""
     out = []
     for n in nest:
-        b = L.body_of(n)
-        out.append(n[0] if b is None else n[0] + "(" + shape_of(b) + ")")
-    return " ".join(out)
+        k = n[0]
+        if k == "text":
+            if not (out and out[-1][0] == "text"):
+                out.append(("text", "x"))
+        elif k in ("echo", "assign"):
+            continue
+        elif k in ("capture", "ifchanged"):
+            for m in only_leaves(L.body_of(n)):
+                if not (m[0] == "text" and out and out[-1][0] == "text"):
+                    out.append(m)
+        elif k == "block":
+            out.append((k, [only_leaves(d) or [("text", "x")] for d in n[1]]))
+        elif k in L.BODY1:
+            out.append((k, only_leaves(n[1]) or [("text", "x")]))
+        elif k in L.BODY2:
+            out.append((k, n[1], only_leaves(n[2]) or [("text", "x")]))
+        else:
+            out.append(tuple(n))
+    return out
 
 
-def culprit(nest, limit, prod=1, inside=None):
-    """The outermost tablerow / include-with-array / render-for on a path whose product exceeds the limit
-    (None if the excess does not pass through one): identifies the failing input class."""
+shape_of = L.shape_of
+
+
+def culprit(nest, limit, prod=1, inside=None, insup=False):
+    """(EXPANDED form) the outermost tablerow / include-with-array / render-for on a path whose product exceeds the limit
+    (None if the excess does not pass through one); 'super' if the path passes through a block.super: identifies the failing input class."""
     for n in nest:
         k = n[0]
-        b = L.body_of(n)
-        if b is None:
+        r_ = L._inner(n, insup)
+        if r_ is None:
             continue
+        b, ins = r_
         if k in L.REPEATING:
             if n[1] == 0:
                 continue
             p = prod * n[1]
             if p > limit and inside is not None:
                 return inside
-            r = culprit(b, limit, p, inside or (k if k in NOT_PUSHED else None))
+            r = culprit(b, limit, p, inside or (k if k in NOT_PUSHED else None), ins)
         else:
-            r = culprit(b, limit, prod, inside)
+            r = culprit(b, limit, prod, inside or ("super" if k == "superx" else None), ins)
         if r:
             return r
     return None
@@ -224,7 +280,11 @@ def run(ck: Check) -> None:
         "random trees with several leaves; each nest rendered (sync and async) without a limit and under every loop_iteration_limit in "
         "{1,2,5,6,11,24,60,200}; leaf executions counted from the output; the chains to depth 2, the trees and a sample of the rest "
         "also in WARN and LAX mode (limits 2, 5, 24; with context_depth_limit 5 / 6 so that an error is dropped inside a loop). Non-trivial = at least one repeating construct of length >= 2; "
-        "Plus five inheritance shapes (extends / block / block.super, oracle only): loops written in the child, the parent and the base of a chain, entered one inside the other, lengths 1..3 (5), limits 1, P-1, P, 200. distinct = distinct (nest, limit)."
+        "The same constructs spread over CHAINS of 2 and 3 templates printed from the model's nests (extends / block / {{ block.super }}): any construct (or none) "
+        "around the block tag in the base template, around block.super in each overriding definition and around the leaf in the last one - exhaustive for "
+        "two templates and one construct each (lengths 2, 3; thorough 0,2,3,5), sampled for three templates / two constructs, plus random trees with "
+        "block tags and block.super anywhere; limits 1, 2, 5, 6, 24, 200, P-1, P. "
+        "Plus five hand-written inheritance shapes (oracle only): loops written in the child, the parent and the base of a chain, entered one inside the other, lengths 1..3 (5), limits 1, P-1, P, 200. distinct = distinct (nest, limit)."
     )
     ck.exhaustive = True
     ck.trusted_base = [
@@ -233,7 +293,7 @@ def run(ck: Check) -> None:
         "modelled not verified: range/array length evaluation, DictLoader, the stack discipline of Python context managers",
     ]
     ck.assumptions = [
-        "loop_iteration_limit >= 1 (plus context_depth_limit in the tolerant-mode runs); lengths are static (ranges and arrays of known size); no break/continue",
+        "loop_iteration_limit >= 1 (plus context_depth_limit in the tolerant-mode runs); lengths are static (ranges and arrays of known size); no break/continue; block names distinct, no required blocks",
         "leaf executions are observed as the number of 'x' in the output",
     ]
     ck.proof()
@@ -241,38 +301,44 @@ def run(ck: Check) -> None:
 
     sw = L.Sweeps()
     nolim = L.Limits()
-    for label, nest in gen_nests(ck):
-        printed = L.to_source(nest)
+    for label, levels, nest in gen_nests(ck):
+        printed = L.to_source(nest, levels)
+        xn = L.expand(nest)        # what the oracles read: every block.super with the definition it renders
+        inherit = label.startswith("inherit")
         base, _ = L.run_impl(nest, nolim, False, printed)
-        if base[0] == "out" and base[1].count("x") != L.leaf_count(nest):
+        if base[0] == "out" and base[1].count("x") != L.leaf_count(xn):
             ck.violation("correspondence", "c06-generator-count", "unlimited render executes a different number of leaves than the nest says",
-                         {"main": nest, "limits": nolim.as_dict(), "impl": base, "expected_leaves": L.leaf_count(nest),
+                         {"main": nest, "levels": levels, "limits": nolim.as_dict(), "impl": base, "expected_leaves": L.leaf_count(xn),
                           "broken": "harness printer / oracle arithmetic"}, no_input=True)
-        nontriv = L.max_loop_product(nest) >= 2
+        nontriv = L.max_loop_product(xn) >= 2
         sw.group(nest, printed)
-        for limit in LIMITS:
+        mp = L.max_loop_product(xn)
+        limits = LIMITS if not inherit else sorted({1, 2, 5, 6, 24, 200} | ({mp - 1, mp} - {0, -1} if mp <= 240 else set()))
+        for limit in limits:
             lim = L.Limits(loop=limit)
             s, _ = L.run_impl(nest, lim, False, printed)
-            a, _ = L.run_impl(nest, lim, True, printed)
+            a = s if inherit and ck.quick and limit not in (2, 6, mp) else L.run_impl(nest, lim, True, printed)[0]
             ck.note_case((nest, limit), nontrivial=nontriv)
             ck.count(f"{label}.{'raised' if s[0] == 'err' else 'completed'}")
-            v = judge(nest, limit, base, s, a)
+            v = judge(xn, limit, base, s, a)
             if v is not None:
                 ck.violation("impl-violation", v[0], f"{printed[0]!r} partials {printed[1]!r} limit {limit}: {v[1]}",
-                             {"main": nest, "limits": lim.as_dict(), "template": printed[0], "partials": printed[1],
+                             {"main": nest, "levels": levels, "limits": lim.as_dict(), "template": printed[0], "partials": printed[1],
                               "sync": s, "async": a, "unlimited": base})
             if s[0] == "err" and s[1].startswith("other:"):
                 ck.violation("impl-violation", "c06-foreign-error:" + s[1], f"{printed[0]!r}: {s[1]}",
-                             {"main": nest, "limits": lim.as_dict(), "template": printed[0], "partials": printed[1], "sync": s, "async": a})
+                             {"main": nest, "levels": levels, "limits": lim.as_dict(), "template": printed[0], "partials": printed[1], "sync": s, "async": a})
                 continue
             sw.add(lim, [], s, explained=v is not None)
         # WARN / LAX: errors are dropped per top-level node; with a small context_depth_limit too (an error inside a loop)
-        if base[0] != "out" or not (label in ("chain1", "chain2", "tree", "leak") or ck.rng.random() < 0.12):
+        if base[0] != "out" or not (label in ("chain1", "chain2", "tree", "leak", "inherit-tree") or ck.rng.random() < 0.12):
             continue
         for mode in ("lax", "warn"):
             configs = [L.Limits(loop=limit, mode=mode) for limit in ((2, 24) if label == "chain2" else (2, 5, 24))]
-            if label in ("tree", "leak") or ck.rng.random() < 0.25:
-                configs += [L.Limits(loop=limit, depth=d, mode=mode) for limit in ((5, 6, 15, 24) if label == "leak" else (5, 24)) for d in (5, 6)]
+            if label in ("tree", "leak", "inherit-tree") or ck.rng.random() < 0.25:
+                # (an inheritance chain renders the base template's nodes two scopes deep: 6, 7 there)
+                configs += [L.Limits(loop=limit, depth=d + (1 if levels > 1 else 0), mode=mode)
+                            for limit in ((5, 6, 15, 24) if label == "leak" else (5, 24)) for d in (5, 6)]
             for lim in configs:
                 s, _ = L.run_impl(nest, lim, False, printed)
                 a, _ = L.run_impl(nest, lim, True, printed)
@@ -281,20 +347,22 @@ def run(ck: Check) -> None:
                     ref, _ = L.run_impl(nest, lim.replace(loop=None), False, printed)
                 ck.note_case((nest, lim.key()), nontrivial=nontriv)
                 ck.count(f"{mode}.{'escaped' if s[0] == 'err' else 'completed'}")
-                v = judge_tolerant(nest, lim, s, a, ref)
+                v = judge_tolerant(xn, lim, s, a, ref)
                 if v is not None:
                     ck.violation("impl-violation", v[0], f"{printed[0]!r} partials {printed[1]!r} limits {lim.as_dict()}: {v[1]}",
-                                 {"main": nest, "limits": lim.as_dict(), "template": printed[0], "partials": printed[1],
+                                 {"main": nest, "levels": levels, "limits": lim.as_dict(), "template": printed[0], "partials": printed[1],
                                   "sync": s, "async": a, "kind": "tolerant"})
                 if s[0] == "err" and s[1].startswith("other:"):
                     continue
                 sw.add(lim, [], s, explained=v is not None)
     g = sw.groups[len(sw.groups) // 3]
     ck.sample({"template": g[1][0], "partials": g[1][1], "limit": g[2][3][0].loop, "observed": g[2][3][2][:2]})
-    for nest, printed, lim, sizes, s in sw.mismatches(ck, "c06", chunk=120)[:3]:
-        model = ck.coq_eval(L.IMPORTS, [f"run_case ({L.g_case(lim, nest, [])})"])[0]
+    g = sw.groups[-100]
+    ck.sample({"template": g[1][0], "partials": g[1][1], "limit": g[2][3][0].loop, "observed": g[2][3][2][:2]})
+    for nest, printed, lim, sizes, s, _ in sw.mismatches(ck, "c06", chunk=120)[:3]:
+        model = ck.coq_eval(L.IMPORTS, [f"run_case ({L.g_case(lim, L.expand(nest), [], printed[3])})"])[0]
         ck.violation("correspondence", "c06-correspondence",
-                     f"model Limits.run_case and the implementation disagree on {printed[0]!r} partials {printed[1]!r} limit {lim.loop}",
+                     f"model Limits.run_case and the implementation disagree on {printed[0]!r} partials {printed[1]!r} limits {lim.as_dict()}",
                      {"main": nest, "limits": lim.as_dict(), "template": printed[0], "partials": printed[1], "impl": s, "model": model[:300],
                       "broken": "correspondence Limits.run_case ~ render under loop_iteration_limit (theorems C06_bound, C06_raises)"},
                      no_input=True)
@@ -314,7 +382,8 @@ def replay(data) -> int:
         return 1
     nest = case["main"]
     lim = L.Limits.from_dict(case["limits"])
-    printed = L.to_source(nest)
+    printed = L.to_source(nest, case.get("levels", 1))
+    xn = L.expand(nest)
     base, _ = L.run_impl(nest, L.Limits(), False, printed)
     s, _ = L.run_impl(nest, lim, False, printed)
     a, _ = L.run_impl(nest, lim, True, printed)
@@ -324,13 +393,13 @@ def replay(data) -> int:
             ref, _ = L.run_impl(nest, lim.replace(loop=None), False, printed)
         print("template:", printed[0], "partials:", printed[1], "limits:", lim.as_dict())
         print("sync :", s[:2], "async:", a[:2], "without the loop limit:", ref[:2] if ref else None)
-        v = judge_tolerant(nest, lim, s, a, ref)
+        v = judge_tolerant(xn, lim, s, a, ref)
         print(("VIOLATION reproduced: " + v[1] if v else "not reproduced") + f" property={data['property']}")
         return 1 if v else 0
     print("template:", printed[0], "partials:", printed[1], "loop_iteration_limit:", lim.loop)
     print("sync :", s[:2] if s[0] == "err" else ("out", f"{s[1].count('x')} leaf executions"))
     print("async:", a[:2] if a[0] == "err" else ("out", f"{a[1].count('x')} leaf executions"))
-    print("largest product of enclosing lengths:", L.max_loop_product(nest))
-    v = judge(nest, lim.loop, base, s, a)
+    print("largest product of enclosing lengths:", L.max_loop_product(xn))
+    v = judge(xn, lim.loop, base, s, a)
     print(("VIOLATION reproduced: " + v[1] if v else "not reproduced") + f" property={data['property']}")
     return 1 if v else 0
